@@ -2,6 +2,7 @@
 import json
 import random
 import vlib
+from checks import ext_cells
 
 LEVEL = "model_checking"
 
@@ -116,3 +117,5 @@ def run(ctx):
     ctx.log("C01 cases: %d" % len(cases))
     ctx.exhaustive = {"top_depth": Ltop, "deep_depth": Ld, "corner_chains": "all levels 0..30"}
     ctx.replay(cases, timeout=1500)
+    ext_cells.run_metrics(ctx)
+    ext_cells.run_apalache(ctx)
